@@ -124,14 +124,14 @@ fn macro_body(input: Input<'_>) -> ParserResult<'_, MacroBody<'_>> {
         (
             preceded(
                 pair(
-                    skip_ws_and_comments(tag("TYPE NOTATION")),
+                    skip_ws_and_comments(pair(tag("TYPE"), skip_ws_and_comments(tag("NOTATION")))),
                     skip_ws_and_comments(tag(ASSIGN)),
                 ),
                 skip_ws_and_comments(macro_alternative_list),
             ),
             preceded(
                 pair(
-                    skip_ws_and_comments(tag("VALUE NOTATION")),
+                    skip_ws_and_comments(pair(tag("VALUE"), skip_ws_and_comments(tag("NOTATION")))),
                     skip_ws_and_comments(tag(ASSIGN)),
                 ),
                 skip_ws_and_comments(macro_alternative_list),
@@ -309,7 +309,7 @@ fn symbol_defn(input: Input<'_>) -> ParserResult<'_, SymbolDefn<'_>> {
                 ),
                 map(
                     delimited(
-                        tag("VALUE"),
+                        skip_ws_and_comments(tag("VALUE")),
                         skip_ws_and_comments(macro_type),
                         skip_ws_and_comments(char(RIGHT_PARENTHESIS)),
                     ),
